@@ -144,6 +144,7 @@ type Kernel struct {
 	Rules     [][]byte
 	ReplySize int // bytes of audit_status this kernel version sends (32..)
 	Queue     []*Datagram
+	qhead     int // every datagram before this index is consumed
 	Ledger    []*Request
 	Faults    []ReqFault
 	Now       func() int64
@@ -493,7 +494,13 @@ func (k *Kernel) semantic(r *Request) int {
 // receivable datagram, or nil (EAGAIN) when none is available yet.
 func (k *Kernel) Recv() *Datagram {
 	now := k.Now()
-	for _, d := range k.Queue {
+	if k.qhead > len(k.Queue) {
+		k.qhead = 0
+	}
+	for k.qhead < len(k.Queue) && k.Queue[k.qhead].Consumed {
+		k.qhead++ // (consumed datagrams stay in the queue for the oracles; long runs do not rescan them)
+	}
+	for _, d := range k.Queue[k.qhead:] {
 		if d.Consumed {
 			continue
 		}
@@ -506,6 +513,15 @@ func (k *Kernel) Recv() *Datagram {
 		return d
 	}
 	return nil
+}
+
+// Forget drops the ledger and the (consumed) queue: the conversation so far is
+// over and judged, what follows is numbered from zero again. The kernel's own
+// state (status, rules) stays.
+func (k *Kernel) Forget() {
+	k.Ledger = k.Ledger[:0]
+	k.Queue = k.Queue[:0]
+	k.qhead = 0
 }
 
 // Pending returns the number of datagrams not yet consumed.
